@@ -10,6 +10,9 @@ CHECKS = {
  "C01": dict(engine="simrt+refcodec", cat="exploration", ref="DESIGN.md 5/C01",
    text="Seeded search over RDB files written by an independent reference writer (all types/encodings/length forms, metadata opcodes, >16 MiB hashes) parsed by the real loader behind a fragmenting, truncating stream with producer/consumer interleaving; every record compared field by field and byte for byte with the file.",
    tech="deterministic simulation: reference RDB writer as generator/oracle, simulated stream with fragmentation and truncation faults, scheduled producer/consumer"),
+ "C02": dict(engine="simrt+simnet+modelredis", cat="exploration", ref="DESIGN.md 5/C02",
+   text="Seeded search over (entry, configuration, target flavour, pre-existing key) with the real RestoreRdbEntry talking redigo/RESP over a simulated connection to a Redis model; the target keyspace is compared with the reference decoding of the source bytes, TTL to the millisecond of simulated time.",
+   tech="deterministic simulation: real restore code against a simulated network and Redis reference model, reference decoder as oracle"),
  "C18": dict(engine="simrt", cat="exploration", ref="DESIGN.md 5/C18",
    text="Seeded search over writer/reader/closer scripts and lock-granularity interleavings of the real backlog ring against an absolute-offset log model (interval semantics for in-flight writes), with lost-wake-up analysis at quiescence.",
    tech="deterministic simulation: tape-driven baton scheduler over instrumented locks/conds + absolute-offset log model"),
